@@ -81,10 +81,18 @@ Section ADUpdates.
 (* one entry per (L[i], g[i], inner_stepsizes[i]) *)
 Record adop := mk_adop { ad_L : vec -> vec; ad_Ladj : vec -> vec;
                          ad_prox : vec -> vec;      (* g[i].convex_conj.proximal(stepsize * inner[i]) *)
-                         ad_inner : T;              (* inner_stepsizes[i] (scalar) *)
+                         ad_inner : T;              (* inner_stepsizes[i] when it is a scalar *)
+                         ad_inner_v : option vec;   (* inner_stepsizes[i] when it is an array (np.isscalar false) *)
                          ad_m : nat;                (* size of L[i].range *)
                          ad_key : nat }.            (* which entry of tmp_rans: equal ranges share one buffer *)
 Variable stepsize : T.
+(* duals[j] + step * L[j](x)  with  step = stepsize * inner_stepsizes[j]  (scalar) or
+   stepsize * np.asarray(inner_stepsizes[j])  (array, entrywise product) *)
+Definition ad_arg (o : adop) (d x : vec) : vec :=
+  match ad_inner_v o with
+  | None => vadd d (vscal (stepsize * ad_inner o) (ad_L o x))
+  | Some v => vadd d (vmul (vscal stepsize v) (ad_L o x))
+  end.
 
 (* for i in range(length): x -= 1.0 / stepsize * L[i].adjoint(duals[i]) *)
 Fixpoint ad_pre (ops : list adop) (duals : list vec) (x : vec) : vec :=
@@ -96,7 +104,7 @@ Fixpoint ad_pre (ops : list adop) (duals : list vec) (x : vec) : vec :=
 Fixpoint ad_sweep_ref (ops : list adop) (duals : list vec) (x : vec) : vec * list vec * list vec :=
   match ops, duals with
   | o :: ops', d :: duals' =>
-      let dual_tmp := ad_prox o (vadd d (vscal (stepsize * ad_inner o) (ad_L o x))) in
+      let dual_tmp := ad_prox o (ad_arg o d x) in
       let x1 := vsub x (vscal (none_ / stepsize) (ad_Ladj o (vsub dual_tmp d))) in
       let '(xf, ds, tr) := ad_sweep_ref ops' duals' x1 in
       (xf, dual_tmp :: ds, x1 :: tr)
@@ -118,7 +126,7 @@ Fixpoint ad_sweep_opt (ops : list adop) (duals : list vec) (tmps : list vec) (x 
   : vec * list vec * list vec * list vec :=
   match ops, duals with
   | o :: ops', d :: duals' =>
-      let arg := vadd d (vscal (stepsize * ad_inner o) (ad_L o x)) in       (* arg = duals[j] + step * L[j](x) *)
+      let arg := ad_arg o d x in                                            (* arg = duals[j] + step * L[j](x) *)
       let tmps1 := setnth (ad_key o) (ad_prox o arg) tmps in                (* proxs[j](arg, out=tmp_ran) *)
       let tmp_ran := getnth (ad_key o) tmps1 in
       let x1 := vsub x (vscal (none_ / stepsize) (ad_Ladj o (vsub tmp_ran d))) in
